@@ -1,5 +1,5 @@
 """Property -> rule list. Each rule: (id, text, function(ctx, report))."""
-import rules_cmd, rules_expire, rules_conn, rules_auth, rules_tx, rules_db, rules_zset, rules_rdb, rules_aof, rules_block, rules_pubsub, rules_stream, rules_scan, rules_panic, rules_lua
+import rules_cmd, rules_expire, rules_conn, rules_auth, rules_tx, rules_db, rules_zset, rules_rdb, rules_aof, rules_block, rules_pubsub, rules_stream, rules_scan, rules_panic, rules_lua, rules_int, rules_coll
 from shared import SERVER
 
 
@@ -13,6 +13,7 @@ def _c01():
          rules_cmd.make_dispatch_rule("C01")),
         ("R-ATOMIC", "no validation refusal is reachable after a dataset mutation (handlers: after the success continuation of a mutating engine call; engine methods: after a DATA-MUT site)",
          rules_cmd.rule_atomic("C01")),
+        ("R-INT-CANON", "integers stored as text are read through the std i64 parser plus a round-trip (canonical form, whole i64 range); the INCR family takes the stored number from such a parser", rules_int.make_int_canon("C01")),
     ]
 
 
@@ -33,6 +34,9 @@ def _c04():
         ("R-NAN", "every score handed to SkipList::insert in the engine is dominated by an is_nan()/is_finite() refusal of that very value", rules_zset.rule_nan),
         ("R-SKIP-PAIR", "key index, node links and length stay in step: index insert -> node link, re-score unlinks before linking, index remove -> unlink, length written only by link/unlink", rules_zset.rule_skip_pair),
         ("R-EMPTY", "removing the last member removes the key", rules_cmd.rule_empty),
+        ("R-SKIP-CMP", "both comparators are the lexicographic (score, member) order: partial_cmp(first score, second score), Equal arm = Ord::cmp(first member, second member), other arms = partial_cmp's own result", rules_zset.rule_skip_cmp),
+        ("R-SKIP-SEARCH", "the three search loops (link position, unlink position, rank) agree: full comparator on (next.value, next.key) against the sought pair, cursor advanced on Less only", rules_zset.rule_skip_search),
+        ("R-SKIP-KEYSTORE", "the ordering key of a linked node is not overwritten in place on a path where a bare score comparison admits a tie (or without any comparison); after the index is updated every path links a node", rules_zset.rule_skip_keystore),
     ]
 
 
@@ -41,6 +45,7 @@ def _c05():
         ("R-ERRPROP", "an Err from executing a frame never leaves the connection loop except for Connection/Io errors: it is converted into an error reply", rules_conn.rule_errprop),
         ("R-REPLY1", "each iteration of the frame loop pushes exactly one reply; the loop is not left mid-batch", rules_conn.rule_reply1),
         ("R-PARSEERR", "a protocol error from parse_frame is queued/sent as an error reply on every path (no silent break)", rules_conn.rule_parseerr),
+        ("R-PARSE-DRAIN", "the loop draining the parser ends only when parse_frame reports an incomplete buffer or an error (no frame budget that strands complete commands until the next read)", rules_conn.rule_parse_drain),
         ("R-PARSEERR-CLOSE", "the consumer of queued protocol errors pushes an error reply and requests the connection to be closed", rules_conn.rule_parseerr_close),
         ("R-CRLF", "line-framed reply variants write payload bytes only through a CR/LF-inspecting function; bulk strings write len() of the slice they write", rules_conn.rule_crlf),
         ("R-TXNORESP", "nothing reachable from EXEC can yield NoResponse or register a blocked client", rules_conn.rule_txnoresp),
@@ -90,6 +95,7 @@ def _c12():
         ("R-LUA-SHA", "EVALSHA executes the cached source unmodified through the EVAL entry with the caller's database", rules_lua.rule_sha),
         ("R-DB", "scripts act on the connection's database (see C18)", rules_db.rule_db),
         ("R-BIN", "KEYS/ARGV/arguments/replies cross the Lua boundary without lossy or UTF-8-only conversions", rules_lua.rule_bin_script),
+        ("R-LUA-CONV", "the RESP->Lua and Lua->RESP conversion functions agree, cell by cell, with the standard conversion table; array elements are stored at their own index", rules_lua.rule_conv),
         ("R-LUA-ATOMIC", "nothing reachable from EVAL re-enters the event loop", rules_tx.rule_tx_atomic(lambda ctx: ["storage::commands::lua::handle_eval_with_db"], "EVAL")),
         ("R-ATOMIC", "script-side command implementations refuse before they mutate", rules_cmd.rule_atomic("C12")),
     ]
@@ -115,6 +121,7 @@ def _c14():
         ("R-PS-DEDUP", "receivers are collected once per matching subscription (not de-duplicated by connection); pattern receivers only under a match test", rules_pubsub.rule_dedup),
         ("R-PS-CLOSE", "every connection observed Closing is queued for removal", rules_pubsub.rule_close),
         ("R-DISC-SIB", "both connection-removal sites drop pub/sub, blocking and monitor registrations", rules_block.rule_disc_sib),
+        ("R-PS-RECORD", "a connection's subscription record is dropped only under `channels.is_empty() && patterns.is_empty()` (or after sweeping both global maps)", rules_pubsub.rule_record),
     ]
 
 
@@ -125,6 +132,10 @@ def _c15():
         ("R-ST-LASTID", "only additions write the last-ID state (field and atomics), both views move together; trim/delete never write it", rules_stream.rule_lastid),
         ("R-ST-PAIR", "every change of the entry vector has the matching length-counter update in the same function", rules_stream.rule_st_pair),
         ("R-ATOMIC", "refused stream commands change nothing", rules_cmd.rule_atomic("C15")),
+        ("R-ST-KEEPKEY", "adding to, deleting from or trimming a stream never removes its key (the last-ID state lives in the value)", rules_stream.rule_keepkey),
+        ("R-ST-IDPARSE", "the stream-ID parser accumulates with checked arithmetic (no wrapping of out-of-range IDs)", rules_stream.rule_idparse),
+        ("R-ST-EXHAUST", "XADD * on an existing stream is guarded by a last-ID == max-ID refusal", rules_stream.rule_exhaust),
+        ("R-PANIC", "stream-ID arithmetic on client-chosen IDs (incl. IDs read back from the stream's atomics) is bounded or checked", rules_panic.make_taint_rule({"client"}, ("arith",), "stream id arithmetic", scope_prefix=("storage::stream::", "storage::consumer_groups::"))),
     ]
 
 
@@ -156,6 +167,7 @@ def _c06():
         ("R-HANG-LUA", "scripts run under an instruction hook / interrupt / memory limit", rules_panic.rule_hang),
         ("R-LOCK-L1", "no lock is re-acquired (directly or through a call) while a guard of the same lock is held", rules_panic.rule_lock_l1),
         ("R-ERRPROP", "a handler error never kills the connection (C05)", rules_conn.rule_errprop),
+        ("R-RUN-FATAL", "the only errors that can propagate through `?` up to Server::run (whose Err ends the process) originate at the listening socket, never in storage, handlers, parsing or per-connection I/O (interprocedural error-origin analysis)", rules_panic.rule_run_fatal),
     ]
 
 
@@ -192,6 +204,8 @@ def _c03():
         ("R-DISPATCH", "every list/set/hash command named by the property has a dispatcher arm reaching the engine with the right effect class and storage primitive (e.g. LPUSH must reach a front insertion, RPOP a back removal)", rules_cmd.make_dispatch_rule("C03")),
         ("R-ATOMIC", "no validation refusal reachable after a dataset mutation (handlers and engine methods of these commands)", rules_cmd.rule_atomic("C03")),
         ("R-EMPTY", "every engine method that shrinks a collection has a reachable emptiness test followed by removal of the key", rules_cmd.rule_empty),
+        ("R-INT-CANON", "HINCRBY reads the stored field through the canonical integer parser (std parse over the whole i64 range + round trip)", rules_int.make_int_canon("C03")),
+        ("R-REMOVE-ITER", "a loop that removes at an ascending index does not advance the index in the iteration that removed (adjacent matches would be skipped: LREM)", rules_coll.rule_remove_iter),
     ]
 
 
@@ -241,17 +255,17 @@ REGISTRY = {
 
 # what each check decides / does not decide (goes into MANIFEST.json)
 CLAIMS = {
-    "C01": {"decided": "Static rules over MIR, all call sites/paths: every string/key command named in the property has a dispatcher arm reaching the engine with the effect class (read-only vs mutating) and storage primitive its reference semantics need; no validation refusal is reachable after a dataset mutation in any handler or engine method (failure atomicity).",
+    "C01": {"decided": "Static rules over MIR, all call sites/paths: every string/key command named in the property has a dispatcher arm reaching the engine with the effect class (read-only vs mutating) and storage primitive its reference semantics need; no validation refusal is reachable after a dataset mutation in any handler or engine method (failure atomicity); stored integers are read through the std i64 parser plus a round trip (canonical decimal form, whole i64 range) by the INCR family.",
             "not_decided": "that each reply value and resulting dataset equal the Redis reference (index arithmetic, NX/XX truth tables, glob semantics)."},
     "C02": {"decided": "Lazy expiry: every shard-map lookup in an engine method flows into is_expired(); the sweeper deletes only under a re-check of the stored deadline in the same lock scope; the deadline is written only by dedicated setters called from dedicated TTL functions; inserts store a fresh StoredValue or (RENAME) the removed one; expiry index updated with the deadline.",
             "not_decided": "real-time exactness of Instant comparisons, TTL reply rounding, sweeper scheduling."},
-    "C03": {"decided": "Every list/set/hash command has a dispatcher arm with the right effect class and the storage primitive its semantics need (LPUSH front insertion, RPOP back removal, ...); failure atomicity (no refusal after a mutation) in handlers and engine methods; every shrinking engine method has an emptiness test followed by removal of the key.",
-            "not_decided": "order/index arithmetic, LREM direction, set algebra results, random-pick distribution."},
-    "C04": {"decided": "No score reaches SkipList::insert without a dominating NaN refusal of that value; refused multi-member ZADD adds nothing; key index, node links and length stay in step (pairing, re-score unlinks before linking, who-writes length); removing the last member removes the key; dispatcher arms with the right skip-list primitive.",
+    "C03": {"decided": "Every list/set/hash command has a dispatcher arm with the right effect class and the storage primitive its semantics need (LPUSH front insertion, RPOP back removal, ...); failure atomicity (no refusal after a mutation) in handlers and engine methods; every shrinking engine method has an emptiness test followed by removal of the key; HINCRBY reads stored integers canonically; no loop removes at an ascending index and advances it in the same iteration (adjacent matches skipped).",
+            "not_decided": "order/index arithmetic, LREM direction and count, set algebra results, random-pick distribution."},
+    "C04": {"decided": "No score reaches SkipList::insert without a dominating NaN refusal of that value; refused multi-member ZADD adds nothing; key index, node links and length stay in step (pairing, re-score unlinks before linking, who-writes length); removing the last member removes the key; dispatcher arms with the right skip-list primitive; both comparators are the lexicographic (score, member) order with arguments in order; the three search loops agree (full comparator, advance on Less only); no in-place overwrite of a linked node's ordering key under a tie-admitting bare score comparison; every path after the index update links a node.",
             "not_decided": "correctness of the tower pointer surgery, comparator totality on -0/inf, agreement of rank and range queries (need execution or a proof of the data structure)."},
-    "C05": {"decided": "Error discipline and reply counting of the connection loop on all CFG paths: an Err from executing a frame is converted to an error reply unless Connection/Io; exactly one reply push per loop iteration and no mid-batch exit; protocol errors are queued/answered and the connection closed; line-framed reply payloads pass a CR/LF filter; nothing reachable from EXEC yields NoResponse.",
+    "C05": {"decided": "Error discipline and reply counting of the connection loop on all CFG paths: an Err from executing a frame is converted to an error reply unless Connection/Io; exactly one reply push per loop iteration and no mid-batch exit; protocol errors are queued/answered and the connection closed; line-framed reply payloads pass a CR/LF filter; nothing reachable from EXEC yields NoResponse; the loop draining the parser is left only when parse_frame reports an incomplete buffer or an error (no complete command is stranded until the next read).",
             "not_decided": "TCP segmentation independence of the whole I/O state machine, reply order under partial writes."},
-    "C06": {"decided": "Interprocedural, type-restricted taint from client/wire numbers (str::parse, RespFrame::Integer) to panicking arithmetic (MIR overflow/neg/div/bounds asserts), indexing/slicing APIs, allocation sizes, float->Duration and clock arithmetic, with bounds derived by abstract interpretation over dominating comparisons, min/max/clamp and casts; bounded parser recursion; no client-timed sleep; script execution bound; lock re-entrancy.",
+    "C06": {"decided": "Interprocedural, type-restricted taint from client/wire numbers (str::parse, RespFrame::Integer) to panicking arithmetic (MIR overflow/neg/div/bounds asserts), indexing/slicing APIs, allocation sizes, float->Duration and clock arithmetic, with bounds derived by abstract interpretation over dominating comparisons, min/max/clamp and casts; bounded parser recursion; no client-timed sleep; script execution bound; lock re-entrancy; stream IDs (hand-written parser) and numbers read back from the stream's atomics are sources too; interprocedural error-origin analysis: only listener errors can propagate through `?` to Server::run (whose Err ends the process).",
             "not_decided": "absence of all panics (only input-tainted ones), memory exhaustion by legitimately large data, liveness under slow peers; bounds are hi/lo abstractions, not exact ranges."},
     "C07": {"decided": "Queue gate dominance in process_frame, FIFO-only use of the queue, one result per queued command with no early exit, transaction-state reset on every exit of EXEC/DISCARD (and before execution), no event-loop re-entry from EXEC, identity of the connection handed to re-dispatched commands.",
             "not_decided": "isolation against non-command threads (sweeper, replica apply); equality of each queued command's reply with its stand-alone reply."},
@@ -263,13 +277,13 @@ CLAIMS = {
             "not_decided": "crash-point atomicity below the file-system API (fsync), exact interleavings with commands beyond the single-acquisition clause."},
     "C11": {"decided": "Write-set agreement: every dispatcher arm that can reach a dataset mutator is in is_write_command; every mutator call site reachable from the event loop lies under the append hook (gated, before dispatch); record carries the database; no random-outcome command appended verbatim; exactly one Array frame per command, flushed under every fsync policy.",
             "not_decided": "that replay reproduces the dataset (the built-in replay is a stub); ordering between append and effect under failure."},
-    "C12": {"decided": "Sandbox list, blocked-command list (and nothing the executor implements escapes it), sibling-dispatcher parity (presence, effect class, storage primitive per catalogue command), EVALSHA = EVAL entry with caller's db and unmodified source, byte-safety of the Lua boundary, no event-loop re-entry from EVAL, failure atomicity of script-side commands.",
+    "C12": {"decided": "Sandbox list, blocked-command list (and nothing the executor implements escapes it), sibling-dispatcher parity (presence, effect class, storage primitive per catalogue command), EVALSHA = EVAL entry with caller's db and unmodified source, byte-safety of the Lua boundary, no event-loop re-entry from EVAL, failure atomicity of script-side commands; the two conversion functions agree cell by cell with the standard RESP<->Lua conversion table and array elements keep their index.",
             "not_decided": "reply equality after RESP->Lua conversion for every command and argument (two independent implementations; needs a differential run)."},
     "C13": {"decided": "Wake path pops only under a still-Blocked test, delivers on the Some edge and pushes back on failed delivery; an empty pop re-registers the client; a woken waiter loses all registrations under the registry lock; every list-growing arm notifies once per element; registry indexes and connection state updated together; both removal sites clean up; blocked connections polled.",
             "not_decided": "FIFO service order, promptness, timeout accuracy, multiset conservation over whole histories."},
-    "C14": {"decided": "Per-connection sets and global maps updated together with the same connection id, emptied entries removed; acknowledged count = channels.len()+patterns.len() after the update; PUBLISH replies with the length of the list it delivers to; no per-connection de-duplication; pattern receivers only under a match test; closing connections always removed with full clean-up.",
+    "C14": {"decided": "Per-connection sets and global maps updated together with the same connection id, emptied entries removed; acknowledged count = channels.len()+patterns.len() after the update; PUBLISH replies with the length of the list it delivers to; no per-connection de-duplication; pattern receivers only under a match test; closing connections always removed with full clean-up; a connection's subscription record is dropped only when both its channel and pattern sets are empty.",
             "not_decided": "per-publisher order across connections, glob semantics of patterns."},
-    "C15": {"decided": "Explicit-ID append dominated by the id > last_id test (refusal edge effect-free); only additions write the last-ID state (field and atomics together), trim/delete never; every entry-vector change has the matching length-counter update; dispatcher arms and failure atomicity.",
+    "C15": {"decided": "Explicit-ID append dominated by the id > last_id test (refusal edge effect-free); only additions write the last-ID state (field and atomics together), trim/delete never; every entry-vector change has the matching length-counter update; dispatcher arms and failure atomicity; stream-mutating engine methods never remove the key (last-ID state survives emptying); the ID parser accumulates with checked arithmetic; XADD * is refused at the top of the ID space; ID arithmetic on client-chosen IDs is checked.",
             "not_decided": "range exactness (binary-search index arithmetic), auto-ID vs wall clock."},
     "C16": {"decided": "Both pending indexes updated together; consumer pending_count and total_pending move with the PEL; XACK counts only on the Some edge of removal; deliveries advance the cursor on both sides of NOACK; creation start position initialises the cursor; refused group administration has no effect.",
             "not_decided": "exactly-once delivery across consumers over histories, XPENDING bounds values, XCLAIM idle-time semantics."},
